@@ -252,6 +252,12 @@ def gen_spec(r: apigen.Rng, idx=0):
         # runtime configuration of the CALLER's process (see run_api).  (Not with an RPC named `Transport`: it replaces the client's
         # `transport` property, which the DEBUG branch of the client's __init__ reads — naming collision, C12's subject.)
         spec["debug_logging"] = True
+    # `option deprecated = true` on some RPCs (the emitted method then warns first; everything else of the call is the same):
+    # drawn last so that the rest of the spec is what it was before this option entered the generator (seed13_C03)
+    for _, _, ms in services_of(spec):
+        for me in ms:
+            if r.maybe(0.3):
+                me["deprecated"] = True
     return spec
 
 
@@ -376,7 +382,8 @@ def build_files(spec):
         for me in smethods:
             if "google.cloud.location." in me["input"]["full"] + me["output"]["full"]:
                 f.dep("google/cloud/location/locations.proto")
-            svc.method(me["name"], "." + me["input"]["full"], "." + me["output"]["full"], cs=me["cs"], ss=me["ss"])
+            svc.method(me["name"], "." + me["input"]["full"], "." + me["output"]["full"], cs=me["cs"], ss=me["ss"],
+                       deprecated=me.get("deprecated", False))
     targets.append(f)
     return deps + targets, targets, deps
 
